@@ -122,7 +122,7 @@ def recvAuth (s : Stanza) : R :=
   | .streamFeatures => up .streamFeatures
   | .failure => some { ups := [.failure], evts := [.disconnectRequest] }
   | .success => some { ups := [.success], evts := [.authed] }
-  | .streamError => if s.errKnown then up .streamError else none      -- NotImplementedError
+  | .streamError => up .streamError       -- of a known kind or not: handed to the application (which disconnects)
   | _ => nothing
 
 def recvMessages (s : Stanza) : R :=
@@ -142,6 +142,7 @@ def recvMedia (s : Stanza) : R :=
   | .message =>
     if s.mtype == .media then
       if !s.hasProto then none          -- mediaNode is None → AttributeError
+      else if s.payload == .keyDistributionOnly then nothing      -- a sender key distribution on its own is not a media message
       else
         match s.media with
         | .image => up .image
